@@ -264,3 +264,12 @@ func init() {
 		return out, nil
 	})
 }
+
+// RepoDir is the compose-go tree the harness was built against (/repo unless VERIF_REPO says otherwise,
+// which only the self-test of seeded changes uses).
+func RepoDir() string {
+	if d := os.Getenv("VERIF_REPO"); d != "" {
+		return d
+	}
+	return "/repo"
+}
